@@ -220,7 +220,15 @@ def handle (input impl : Json) : R Reply := do
       (if t.rounds.any (fun r => r.obs.any (fun o => !o.valid)) then ["invalid-observation"] else []) ++
       (if t.reports.any (fun r => decide (r.upkeeps.length > 1)) then ["multi-upkeep-report"] else []) ++
       (if decide (nTrue > 0) then ["transmit-willing"] else [])
-    pure { agree := agree, diff := diff, specModel := true, specImpl := si, fail := if si then "" else explain t restarts,
+    -- liveness needs every open member to keep consuming transmit events: the coordinator polls its provider once a
+    -- second; the harness measures the longest virtual time an open honest member went without a poll
+    let gap ← asNat (fieldD impl "maxPollGapMs" (.num 0))
+    let pollOk := decide (gap ≤ 2500)
+    let ex := explain t restarts
+    let fail := if !pollOk && (si || ex.startsWith "two-reports-one-work/") then
+        s!"polling-stopped: an open honest member went {gap} ms without asking its transmit event provider (cadence 1000 ms): transmit events are no longer consumed, performed work stays in flight"
+      else if si then "" else ex
+    pure { agree := agree, diff := diff, specModel := true, specImpl := si && pollOk, fail := fail,
            nontrivial := decide (t.reports.length ≥ 2 ∧ nTrue ≥ 2), tags := "net-trace" :: (tags ++ rtags),
            key := s!"{t.n}-{t.f}-{t.rounds.length}-{t.reports.length}-{t.pipeline.length}-{t.queries.length}{rkey}" }
 
